@@ -32,7 +32,8 @@ CONFIG = {
              "insert-delete-replace-reorder-retype edits, or unrelated; (iii) separate streams for the known-finding "
              "domains and the repaired ones (tagged scalars / tagged mappings and sequences, re-ordered record keys, odd "
              "mapping keys, null facing a container at the root and below it, records without identity key) and for "
-             "per-path rules / identity keys from a configuration; "
+             "per-path rules / identity keys from a configuration (incl. a stream of rules naming lists nested directly "
+             "inside positionally compared lists, judged by a reading of the configuration text independent of DifferConfig); "
              "every case under all 10 (--arrays x --aoh) combinations.  non-trivial = the two documents are not both "
              "scalars; distinct = distinct (lhs text, rhs text, config) (hash set)."),
     "trusted_base": [
